@@ -12,6 +12,8 @@ def code(x):
         return UNDEF
     if isinstance(x, bool):
         return int(x)
+    if isinstance(x, float) and x == int(x) and 0 <= x < 400:
+        return 500 + int(x)         # the float k.0: equal to the integer k, but another object
     if isinstance(x, int) and abs(x) < 10 ** 6:
         return x
     return -999999
@@ -158,6 +160,10 @@ def execute(stim):
                 blk = edzed.FuncBlock(b['name'], func=lambda a: wfunc(a), unpack=False, **kw)
             elif k == 'wsum_named':
                 blk = edzed.FuncBlock(b['name'], func=lambda x, y, g: wfunc((x, y) + tuple(g)), **kw)
+            elif k == 'mixf':
+                blk = edzed.FuncBlock(b['name'], func=lambda x, sel: float(x) if sel else int(x), **kw)
+            elif k == 'typ':
+                blk = edzed.FuncBlock(b['name'], func=lambda x: isinstance(x, float), **kw)
             else:
                 raise ValueError(k)
             blks[i] = blk
@@ -210,7 +216,9 @@ def execute(stim):
             for s, etype, val in burst:
                 blk = blks[s]
                 try:
-                    if etype == 'put':
+                    if etype == 'putf':
+                        edzed.ExtEvent(blk).send(float(val))    # equal to the integer, another object
+                    elif etype == 'put':
                         edzed.ExtEvent(blk).send(val)
                     else:
                         edzed.ExtEvent(blk, etype).send()
